@@ -2,7 +2,7 @@
    bool/option/unit/prod/list/sumbool/comparison map to OCaml's own types; N, Z, positive, nat stay
    the extracted inductives.  No Extract Constant. *)
 From Coq Require Import NArith ZArith List Extraction ExtrOcamlBasic.
-From Rawr Require Import Consts Bits Magic Position MoveGen MakeMove Fen Eval TT Search Rules Abs.
+From Rawr Require Import Consts Bits Magic Position MoveGen MakeMove Fen Eval TT Search Uci Rules Abs UciSpec GameTree.
 
 Extraction Language OCaml.
 Extraction "model.ml"
@@ -16,8 +16,10 @@ Extraction "model.ml"
   predict_hash calculate_hash makemove makenull perft
   set_fen from_fen get_fen to_uci show_sq
   eval eval_us
-  tt_new tt_poll tt_add tt_hashfull tt_resize tt_clear t_len slot
+  tt_new tt_poll tt_add tt_hashfull tt_resize tt_clear t_len slot t_new_empty t_poll t_add t_hashfull t_resize t_clear
   qsearch negamax root stop_of stats0
   abs_state board_of spec_legal spec_attacked dec enc apply pass_turn legal captures checkmate stalemate leaves in_check_of
+  run_session step position_cmd moves_cmd find_move display_pos init_state lit set_frc
+  move_str denotes play_tokens qvalue_b mating_moves
   valid_b ep_retro material in_D consistent
   N.of_nat N.to_nat Z.of_N Z.to_N Z.of_nat.
